@@ -1,6 +1,7 @@
 //! C15 — No service is processed before the handshake or after channel close.
 use crate::engine::*;
 use crate::srv::{self, Peer, SrvOpts};
+use opcua::core::comms::chunker::Chunker;
 use opcua::core::comms::message_chunk::MessageChunk;
 use opcua::core::supported_message::SupportedMessage;
 use opcua::server::prelude::*;
@@ -196,7 +197,7 @@ fn loopback_port() -> u16 {
 
 #[derive(Debug, PartialEq)]
 enum Event {
-    Frame([u8; 4]),
+    Frame([u8; 4], Vec<u8>),
     Eof,
 }
 
@@ -220,7 +221,9 @@ fn read_event(s: &mut std::net::TcpStream) -> Event {
     if s.read_exact(&mut rest).is_err() {
         return Event::Eof;
     }
-    Event::Frame([hdr[0], hdr[1], hdr[2], hdr[3]])
+    let mut all = hdr.to_vec();
+    all.extend_from_slice(&rest);
+    Event::Frame([hdr[0], hdr[1], hdr[2], hdr[3]], all)
 }
 
 fn loopback(ctx: &Ctx, frames: &Vec<Frame>) -> PResult {
@@ -256,18 +259,18 @@ fn loopback(ctx: &Ctx, frames: &Vec<Frame>) -> PResult {
             ctx.nontrivial();
             ctx.class("frame_before_hello");
             match (f, &ev) {
-                (Frame::Hel, Event::Frame(t)) if &t[..3] == b"ACK" => hello_done = true,
+                (Frame::Hel, Event::Frame(t, _)) if &t[..3] == b"ACK" => hello_done = true,
                 (Frame::Hel, _) => return ctx.fail("loopback/hello-not-acknowledged", what),
                 (_, Event::Eof) => break,
-                (_, Event::Frame(t)) if &t[..3] == b"ERR" => break,
-                (_, Event::Frame(_)) => return ctx.fail("loopback/answered-before-hello", what),
+                (_, Event::Frame(t, _)) if &t[..3] == b"ERR" => break,
+                (_, Event::Frame(_, _)) => return ctx.fail("loopback/answered-before-hello", what),
             }
             continue;
         }
         match f {
             Frame::Hel => match ev {
                 Event::Eof => break,
-                Event::Frame(t) if &t[..3] == b"ERR" => break,
+                Event::Frame(t, _) if &t[..3] == b"ERR" => break,
                 _ => return ctx.fail("loopback/second-hello-answered", what),
             },
             Frame::Msg(_) => {
@@ -275,7 +278,7 @@ fn loopback(ctx: &Ctx, frames: &Vec<Frame>) -> PResult {
                     ctx.nontrivial();
                     match ev {
                         Event::Eof => break,
-                        Event::Frame(t) if &t[..3] == b"ERR" => break,
+                        Event::Frame(t, _) if &t[..3] == b"ERR" => break,
                         _ => return ctx.fail("service-before-open-secure-channel", what),
                     }
                 } else if ev == Event::Eof {
@@ -283,17 +286,29 @@ fn loopback(ctx: &Ctx, frames: &Vec<Frame>) -> PResult {
                 }
             }
             Frame::OpnIssue => match ev {
-                Event::Frame(t) if &t[..3] == b"OPN" => channel_open = true,
+                Event::Frame(t, data) if &t[..3] == b"OPN" => {
+                    // adopt the issued channel and token ids, as a client does
+                    let chunk = MessageChunk { data };
+                    match Chunker::decode(&[chunk], &peer.channel, None) {
+                        Ok(SupportedMessage::OpenSecureChannelResponse(resp)) => {
+                            peer.channel.set_secure_channel_id(resp.security_token.channel_id);
+                            peer.channel.set_token_id(resp.security_token.token_id);
+                            channel_open = true;
+                        }
+                        // a fault to a second Issue on an open channel changes nothing
+                        _ => {}
+                    }
+                }
                 Event::Eof => break,
                 _ => return ctx.fail("loopback/unexpected-answer-to-open", what),
             },
             Frame::OpnRenew => match ev {
-                Event::Frame(t) if &t[..3] == b"OPN" && channel_open => {}
-                Event::Frame(t) if &t[..3] == b"OPN" => return ctx.fail("renew-without-issue-answered", what),
+                Event::Frame(t, _) if &t[..3] == b"OPN" && channel_open => {}
+                Event::Frame(t, _) if &t[..3] == b"OPN" => return ctx.fail("renew-without-issue-answered", what),
                 Event::Eof => break,
-                Event::Frame(t) if &t[..3] == b"ERR" => break,
+                Event::Frame(t, _) if &t[..3] == b"ERR" => break,
                 // a ServiceFault to the renew (e.g. nonce reuse) travels in an OPN or MSG chunk
-                Event::Frame(_) => {}
+                Event::Frame(_, _) => {}
             },
             Frame::Clo => {
                 ctx.nontrivial();
